@@ -263,3 +263,588 @@ def register(GROUPS, c2g, incs, REPO, HERE, STRUCTS, Group):
         return g, [f, os.path.join(REPO, "src", "sc.h"), w]
 
     GROUPS["LogC19"] = gen_log
+
+    # =================================================================================================
+    # Second group PkgC19 (coq/Gen/PkgC19.v): the PACKAGE REGISTRY of src/sc.c - every function that reads or
+    # writes sc_packages / sc_num_packages / sc_num_packages_alloc in a field the log filter depends on.
+    # Conventions of class RegT (an add-on to EvT; whatever is outside raises c2g.Unsupported):
+    #  * a value of type sc_package_t * is the SLOT INDEX it points to: `sc_packages + e` and `&sc_packages[e]` are e;
+    #    `sc_packages` used as a value (NULL test, argument of realloc / free) is the scalar sc_packages (0 = NULL)
+    #  * a READ of p->f / sc_packages[e].f, f in PKG_FIELDS, is `pk_f slot` (pk_f : Z -> Z = the table when the function
+    #    is entered); a read AFTER a store event of the same function is refused
+    #  * a WRITE p->f = v is the event (6, code f, 0, slot, 0, 0, v); writes to the fields PKG_IGNORED (allocation counters,
+    #    names: outside C19) are dropped; any other field is refused
+    #  * sc_packages = realloc (sc_packages, n * sizeof (sc_package_t)) is the event (7, 0, 0, 0, 0, 0, n) and
+    #    sc_packages := realloc_ret;  free (sc_packages) is (7, 1, 0, 0, 0, 0, 0)
+    #  * calls with effects on the registry are events (8, code, 0, argument, 0, 0, 0): 1 sc_package_unregister_noabort (id),
+    #    2 sc_memory_check_noerr (id), 4 pthread_mutex_init (&slot->mutex), 5 pthread_mutex_destroy (&slot->mutex);
+    #    their results are the scalar parameters unregister_ret, memory_check_ret, mutex_init_ret, mutex_destroy_ret
+    #    (sc_num_packages read after a call of sc_package_unregister_noabort is the parameter sc_num_packages_after_calls)
+    #  * SC_CHECK_ABORT / SC_CHECK_ABORTF / live SC_ASSERT: the event (9, 0, 0, 0, 0, 0, 0) when the condition fails
+    #    (the process ends there; what follows in the list is meaningless)
+    #  * sc_log / sc_logf of the library itself (SC_LERRORF ..): (3 | 4, first integer vararg or 0, 0, package, category,
+    #    priority, number of the format text in MSGS)
+    #  * strcmp (slot->name, name) is `pk_name_cmp slot`, strcmp (name, "default") the scalar name_cmp_default,
+    #    strchr (name, ' ') the scalar name_strchr_space, fclose (..) the scalar fclose_ret
+    # =================================================================================================
+    PKG_FIELDS = {"is_registered": 1, "log_handler": 2, "log_threshold": 3, "log_indent": 4, "abort_mismatch": 5}
+    PKG_IGNORED = ("malloc_count", "free_count", "rc_active", "name", "full")
+    IGNORED_GLOBALS = ("sc_mpicomm", "sc_print_backtrace", "sc_initialized")
+    DROPPED_CALLS = ("sc_set_signal_handler",)
+    MSGS = {"Invalid package id %d\n": -8, "Package %d not registered\n": -9, "Mutex destroy failed for package %s": -10,
+            "Trace file close": -11, "Package summary (%d total):\n": -12, "   %3d: %-15s +%d-%d   %s\n": -13}
+    FUN_ORDER = ["is_registered", "pk_is_registered", "pk_log_handler", "pk_log_threshold", "pk_log_indent", "pk_abort_mismatch", "pk_name_cmp"]
+    SCALARS = ["sc_packages", "sc_num_packages", "sc_num_packages_after_calls", "sc_num_packages_alloc", "sc_identifier", "sc_trace_file", "sc_package_id",
+               "default_abort_mismatch", "realloc_ret", "mutex_init_ret", "mutex_destroy_ret", "memory_check_ret", "unregister_ret",
+               "fclose_ret", "name_cmp_default", "name_strchr_space",
+               "package_id", "package", "set_abort", "log_priority", "log_handler", "log_threshold", "count", "category", "priority", "wp", "wi"]
+    CALL_EVENTS = {"sc_package_unregister_noabort": (1, "unregister_ret"), "sc_memory_check_noerr": (2, "memory_check_ret"),
+                   "pthread_mutex_init": (4, "mutex_init_ret"), "pthread_mutex_destroy": (5, "mutex_destroy_ret")}
+
+    # The theorems apply the generated functions to their arguments BY POSITION.  The parameter list of every definition of
+    # the group is therefore fixed here: an edit after which a function reads different state (another global, another field)
+    # fails the translation (the check reports the tie as broken) instead of silently shifting the arguments.
+    EXPECT_PARAMS = {
+        'sc_package_is_registered': ['pk_is_registered', 'sc_num_packages', 'sc_num_packages_alloc', 'sc_package_id', 'package_id'],
+        'sc_package_is_registered_dbg': ['pk_is_registered', 'sc_num_packages', 'sc_num_packages_alloc', 'sc_package_id', 'package_id'],
+        'sc_query_doabort': ['is_registered', 'pk_abort_mismatch', 'default_abort_mismatch', 'package'],
+        'sc_package_print_summary': ['pk_is_registered', 'sc_num_packages', 'sc_num_packages_alloc', 'sc_package_id', 'log_priority'],
+        'sc_package_set_verbosity': ['is_registered', 'package_id', 'log_priority'],
+        'sc_package_set_abort_alloc_mismatch': ['default_abort_mismatch', 'package_id', 'set_abort'],
+        'sc_package_register': ['pk_is_registered', 'pk_name_cmp', 'sc_packages', 'sc_num_packages', 'sc_num_packages_alloc', 'realloc_ret', 'mutex_init_ret', 'name_cmp_default', 'name_strchr_space', 'log_handler', 'log_threshold'],
+        'sc_package_register_dbg': ['pk_is_registered', 'pk_name_cmp', 'sc_packages', 'sc_num_packages', 'sc_num_packages_alloc', 'realloc_ret', 'mutex_init_ret', 'name_cmp_default', 'name_strchr_space', 'log_handler', 'log_threshold'],
+        'sc_package_unregister_noabort': ['is_registered', 'sc_num_packages', 'sc_num_packages_alloc', 'sc_package_id', 'mutex_destroy_ret', 'memory_check_ret', 'package_id'],
+        'sc_package_unregister': ['is_registered', 'pk_abort_mismatch', 'default_abort_mismatch', 'unregister_ret', 'package_id'],
+        'sc_finalize_noabort': ['pk_is_registered', 'sc_num_packages', 'sc_num_packages_alloc', 'sc_trace_file', 'sc_package_id', 'memory_check_ret', 'unregister_ret', 'fclose_ret'],
+        'sc_finalize_noabort_dbg': ['pk_is_registered', 'sc_num_packages', 'sc_num_packages_after_calls', 'sc_num_packages_alloc', 'sc_trace_file', 'sc_package_id', 'memory_check_ret', 'unregister_ret', 'fclose_ret'],
+        'sc_log_indent_push_count': [],
+        'sc_log_indent_pop_count': [],
+        'sc_log_indent_push_count_np': ['pk_log_indent', 'package', 'count'],
+        'sc_log_indent_pop_count_np': ['pk_log_indent', 'package', 'count'],
+        'sc_log_indent_push_count_npdbg': ['pk_log_indent', 'sc_num_packages', 'sc_num_packages_alloc', 'package', 'count'],
+        'sc_log_indent_pop_count_npdbg': ['pk_log_indent', 'sc_num_packages', 'sc_num_packages_alloc', 'package', 'count'],
+        'sc_log_handler_decide': ['is_registered', 'pk_log_indent', 'sc_identifier', 'package', 'category'],
+        'sc_log_handler_prefix_cond': ['wi', 'wp'],
+        'sc_log_handler_trace_cond': ['priority'],
+    }
+
+    def is_pkgptr(n):
+        t = c2g.strip_quals(c2g.tystr(n))
+        return "sc_package" in t and t.endswith("*")
+
+    def is_assign(n):
+        return isinstance(n, dict) and n.get("kind") == "BinaryOperator" and n.get("opcode") == "="
+
+    class RegT(EvT):
+        def __init__(self, inline=None):
+            super().__init__()
+            self.stored = False
+            self.inline = inline or {}           # C name -> parameter list of an already generated function
+            self.call_hooks = {"sc_package_is_registered": self.hook_isreg, "strcmp": self.hook_strcmp,
+                               "strchr": self.hook_strchr, "fclose": self.hook_fclose}
+            for cn in self.inline:
+                self.call_hooks[cn] = self.hook_inline
+            self.extra = []
+
+        # --- parameters -----------------------------------------------------------------
+        def lookup(self, env, key):
+            # a call of sc_package_unregister_noabort changes sc_num_packages: what is read afterwards is not the value at entry
+            if key == "sc_num_packages" and getattr(self, "clobbered", False):
+                key = "sc_num_packages_after_calls"
+            return super().lookup(env, key)
+
+        def need(self, name):
+            if name in FUN_ORDER:
+                if name not in [n_ for n_, _ in self.extra]:
+                    raise c2g.Unsupported("%s: table function %s was not found by the scan" % (self.fname, name))
+                return
+            if name not in SCALARS:
+                raise c2g.Unsupported("%s reads %s, which is not a modelled part of the registry" % (self.fname, name))
+            if name not in self.params:
+                self.params.append(name)
+                self.param_kinds[name] = "Z"
+
+        def hook_strcmp(self, T, node, env):
+            a, b = strip(node["inner"][1]), strip(node["inner"][2])
+            if a.get("kind") == "MemberExpr" and a.get("name") == "name" and self.slot_of(a, env) is not None:
+                self.need("pk_name_cmp")
+                return c2g.E("pk_name_cmp %s" % self.slot_of(a, env))
+            if b.get("kind") == "StringLiteral" and b.get("value") == '"default"':
+                return c2g.E(self.lookup(env, "name_cmp_default"), "Z", True)
+            raise c2g.Unsupported("strcmp call shape in %s" % self.fname)
+
+        def hook_strchr(self, T, node, env):
+            b = strip(node["inner"][2])
+            if b.get("kind") == "CharacterLiteral" and b.get("value") == 32:
+                return c2g.E(self.lookup(env, "name_strchr_space"), "Z", True)
+            raise c2g.Unsupported("strchr call shape in %s" % self.fname)
+
+        def hook_fclose(self, T, node, env):
+            return c2g.E(self.lookup(env, "fclose_ret"), "Z", True)
+
+        def hook_inline(self, T, node, env):
+            cn = callee_name(node)
+            formal = self.inline[cn]
+            fn_params = [q.get("name") for q in self.inline_decl[cn].get("inner", []) if q.get("kind") == "ParmVarDecl"]
+            actual = dict(zip(fn_params, [self.expr(a, env).z() for a in node["inner"][1:]]))
+            out = []
+            for pn in formal:
+                if pn in actual:
+                    out.append(actual[pn])
+                else:
+                    self.need(pn)
+                    out.append(pn)
+            return c2g.E("snd (%s %s)" % (cn, " ".join(out)))       # (events, value): the callee is a reader without events
+
+        # --- the table ------------------------------------------------------------------
+        def slot_of(self, member, env):
+            """slot index (Gallina text) of the object of member expression p->f / sc_packages[e].f, else None"""
+            b0 = member["inner"][0]
+            if member.get("isArrow"):
+                if is_pkgptr(b0):
+                    return self.expr(b0, env).z()
+                return None
+            b = strip(b0)
+            if b.get("kind") == "ArraySubscriptExpr" and strip(b["inner"][0]).get("referencedDecl", {}).get("name") == "sc_packages":
+                return self.expr(b["inner"][1], env).z()
+            return None
+
+        def is_slot_member(self, n):
+            if n.get("kind") != "MemberExpr":
+                return False
+            if n.get("isArrow"):
+                return is_pkgptr(n["inner"][0])
+            b = strip(n["inner"][0])
+            return b.get("kind") == "ArraySubscriptExpr" and strip(b["inner"][0]).get("referencedDecl", {}).get("name") == "sc_packages"
+
+        def lvalue_key(self, n):
+            n2 = c2g.skip_parens(n)
+            if self.is_slot_member(n2):
+                return "pkgslot_" + n2["name"]
+            return super().lvalue_key(n)
+
+        def expr(self, n, env):
+            k = n.get("kind")
+            if k == "MemberExpr" and self.is_slot_member(n):
+                f = n["name"]
+                if f not in PKG_FIELDS:
+                    raise c2g.Unsupported("read of field %s of a package slot in %s" % (f, self.fname))
+                if self.stored:
+                    raise c2g.Unsupported("read of a package field after a store in %s" % self.fname)
+                self.need("pk_" + f)
+                return c2g.E("pk_%s %s" % (f, self.slot_of(n, env)))
+            if k == "BinaryOperator" and n.get("opcode") == "+" and is_pkgptr(n):
+                if strip(n["inner"][0]).get("referencedDecl", {}).get("name") != "sc_packages":
+                    raise c2g.Unsupported("package pointer arithmetic that is not sc_packages + index in %s" % self.fname)
+                return self.expr(n["inner"][1], env)
+            if k == "UnaryOperator" and n.get("opcode") == "&":
+                t = strip(n["inner"][0])
+                if t.get("kind") == "ArraySubscriptExpr" and strip(t["inner"][0]).get("referencedDecl", {}).get("name") == "sc_packages":
+                    return self.expr(t["inner"][1], env)
+            return super().expr(n, env)
+
+        # --- events ---------------------------------------------------------------------
+        def store_events(self, s, env):
+            """[(lhs member node ..)], value expression for a (chained) assignment to slot fields; None if s is not one"""
+            lhss, r = [], s
+            while is_assign(c2g.skip_parens(r)) if r is not s else is_assign(r):
+                r = c2g.skip_parens(r) if r is not s else r
+                lhss.append(c2g.skip_parens(r["inner"][0]))
+                r = r["inner"][1]
+                while r.get("kind") in ("ImplicitCastExpr", "ParenExpr") and is_assign(c2g.skip_parens(r["inner"][0])):
+                    r = c2g.skip_parens(r["inner"][0])
+            if not lhss or not all(self.is_slot_member(l) for l in lhss):
+                return None
+            return lhss, r
+
+        def has_event_call(self, s):
+            if isinstance(s, dict):
+                if s.get("kind") == "CallExpr" and callee_name(s) in ("sc_package_lock", "sc_package_unlock", "sc_log", "sc_logf", "sc_abort_verbose",
+                                                                     "sc_abort_verbosef", "realloc", "free") + tuple(CALL_EVENTS):
+                    return True
+                if s.get("kind") in ("BinaryOperator", "CompoundAssignOperator") and s.get("opcode", "").endswith("=") and \
+                        s.get("opcode") not in ("==", "!=", "<=", ">=") and self.is_slot_member(c2g.skip_parens(s["inner"][0])) and \
+                        c2g.skip_parens(s["inner"][0])["name"] in PKG_FIELDS:
+                    return True
+                return any(self.has_event_call(c) for c in s.get("inner", []))
+            return False
+
+        def assigned(self, s, acc, declared):
+            c2g.Translator.assigned(self, s, acc, declared)
+            if self.has_event_call(s):
+                acc.add("evs")
+            for x in [x for x in acc if x.startswith("pkgslot_") or x in IGNORED_GLOBALS]:
+                acc.discard(x)
+
+        def referenced(self, s, acc):
+            if isinstance(s, dict) and s.get("kind") == "MemberExpr" and self.is_slot_member(s):
+                for c in s.get("inner", []):
+                    if isinstance(c, dict):
+                        self.referenced(c, acc)
+                return
+            if isinstance(s, dict) and s.get("kind") == "DeclRefExpr" and s.get("referencedDecl", {}).get("name") in ("sc_packages",) + IGNORED_GLOBALS:
+                return
+            c2g.Translator.referenced(self, s, acc)
+
+        def event_of_call(self, s, env):
+            name = callee_name(s)
+            args = s["inner"][1:]
+            ex = lambda a: self.expr(a, env).z()
+            if name in ("sc_abort_verbose", "sc_abort_verbosef"):
+                return "[(9, 0, 0, 0, 0, 0, 0)]"
+            if name in ("sc_log", "sc_logf"):
+                lit = strip(args[5])
+                if lit.get("kind") != "StringLiteral":
+                    raise c2g.Unsupported("log call of the library with a computed text in %s" % self.fname)
+                import json as _json
+                text = _json.loads(lit["value"])
+                if text not in MSGS:
+                    raise c2g.Unsupported("unknown message text %r in %s" % (text, self.fname))
+                first = "0"
+                if len(args) > 6 and c2g.int_type(c2g.tystr(args[6])) is not None:
+                    first = ex(args[6])
+                return "[(%d, %s, 0, %s, %s, %s, %s)]" % (3 if name == "sc_log" else 4, first, ex(args[2]), ex(args[3]), ex(args[4]), c2g.lit(MSGS[text]).z())
+            if name == "free":
+                if strip(args[0]).get("referencedDecl", {}).get("name") != "sc_packages":
+                    raise c2g.Unsupported("free of something else than sc_packages in %s" % self.fname)
+                return "[(7, 1, 0, 0, 0, 0, 0)]"
+            if name in DROPPED_CALLS:
+                return None
+            if name in ("sc_package_lock", "sc_package_unlock"):
+                return super().event_of_call(s, env)
+            raise c2g.Unsupported("call statement to %s in %s" % (name, self.fname))
+
+        def call_event(self, call, env):
+            """event text and result parameter of a call listed in CALL_EVENTS"""
+            name = callee_name(call)
+            code, retp = CALL_EVENTS[name]
+            if code == 1:
+                self.clobbered = True
+            a = call["inner"][1]
+            t = strip(a)
+            if name.startswith("pthread_mutex"):
+                if not (t.get("kind") == "UnaryOperator" and t.get("opcode") == "&" and strip(t["inner"][0]).get("kind") == "MemberExpr"
+                        and strip(t["inner"][0]).get("name") == "mutex" and self.is_slot_member(strip(t["inner"][0]))):
+                    raise c2g.Unsupported("%s is not called on the mutex of a package slot in %s" % (name, self.fname))
+                arg = self.slot_of(strip(t["inner"][0]), env)
+            else:
+                arg = self.expr(a, env).z()
+            return "[(8, %d, 0, %s, 0, 0, 0)]" % (code, arg), self.lookup(env, retp)
+
+        def emit(self, ev, env, rest, K, more=None):
+            v = self.fresh("evs")
+            env2 = dict(env)
+            env2["evs"] = v
+            for k_, val in (more or {}).items():
+                env2[k_] = val
+            return "let %s := %s ++ %s in\n%s" % (v, env["evs"], ev, self.stmts(rest, env2, K))
+
+        # --- statements -----------------------------------------------------------------
+        def stmts(self, ss, env, K):
+            if not ss:
+                return K["fin"](env)
+            s, rest = ss[0], ss[1:]
+            k = s.get("kind")
+            if k == "DeclStmt" and len(s.get("inner", [])) > 1:
+                return self.stmts([dict(s, inner=[d]) for d in s["inner"]] + rest, env, K)
+            if k == "DeclStmt":
+                d = s["inner"][0]
+                init = [c for c in d.get("inner", []) if isinstance(c, dict)]
+                if init and is_pkgptr(d):
+                    return self.assign(d["name"], self.expr(init[0], env), env, rest, K)
+            if k == "IfStmt" and rest and any(c2g.body_uses_loops(a) for a in s["inner"][1:]):
+                # an arm with a loop ends in a `match`: the continuation is copied into both arms instead of merging
+                c = self.expr(s["inner"][0], env)
+                return "(if %s then\n%s\nelse\n%s)" % (c.b(), self.stmts([s["inner"][1]] + rest, dict(env), K),
+                                                       self.stmts(([s["inner"][2]] if len(s["inner"]) > 2 else []) + rest, dict(env), K))
+            if k == "IfStmt":
+                # `if (call (..))` / `if (!call (..))` with a call that has an effect on the registry
+                c0 = strip(s["inner"][0])
+                neg = False
+                if c0.get("kind") == "UnaryOperator" and c0.get("opcode") == "!":
+                    c0, neg = strip(c0["inner"][0]), True
+                if c0.get("kind") == "CallExpr" and callee_name(c0) in CALL_EVENTS:
+                    ev, retp = self.call_event(c0, env)
+                    saved = dict(self.call_hooks)
+                    self.call_hooks[callee_name(c0)] = lambda T_, n_, e_: c2g.E(retp, "Z", True)
+                    try:
+                        v = self.fresh("evs")
+                        env2 = dict(env)
+                        env2["evs"] = v
+                        return "let %s := %s ++ %s in\n%s" % (v, env["evs"], ev, c2g.Translator.stmts(self, ss, env2, K))
+                    finally:
+                        self.call_hooks = saved
+            if is_assign(s):
+                lhs = c2g.skip_parens(s["inner"][0])
+                st = self.store_events(s, env)
+                if st is not None:
+                    lhss, r = st
+                    fields = [l["name"] for l in lhss]
+                    if all(f in PKG_IGNORED for f in fields):
+                        return self.stmts(rest, env, K)
+                    if not all(f in PKG_FIELDS for f in fields):
+                        raise c2g.Unsupported("store to the package fields %s in %s" % (fields, self.fname))
+                    val = self.expr(r, env).z()
+                    evs = "; ".join("(6, %d, 0, %s, 0, 0, %s)" % (PKG_FIELDS[l["name"]], self.slot_of(l, env), val) for l in reversed(lhss))
+                    self.stored = True
+                    return self.emit("[%s]" % evs, env, rest, K)
+                if lhs.get("kind") == "DeclRefExpr":
+                    ln = lhs["referencedDecl"]["name"]
+                    rhs = strip(s["inner"][1])
+                    if ln in IGNORED_GLOBALS:
+                        return self.stmts(rest, env, K)
+                    if ln == "sc_packages" and rhs.get("kind") == "CallExpr" and callee_name(rhs) == "realloc":
+                        a = rhs["inner"][1:]
+                        if strip(a[0]).get("referencedDecl", {}).get("name") != "sc_packages":
+                            raise c2g.Unsupported("realloc of something else than sc_packages")
+                        m = strip(a[1])
+                        sz = strip(m["inner"][1]) if m.get("kind") == "BinaryOperator" and m.get("opcode") == "*" else {}
+                        if not (sz.get("kind") == "UnaryExprOrTypeTraitExpr" and sz.get("name") == "sizeof" and
+                                "sc_package" in (sz.get("argType", {}).get("qualType", "") + sz.get("argType", {}).get("desugaredQualType", ""))):
+                            raise c2g.Unsupported("realloc size is not n * sizeof (sc_package_t) in %s" % self.fname)
+                        n_ = self.expr(strip(m["inner"][0]), env).z()
+                        return self.emit("[(7, 0, 0, 0, 0, 0, %s)]" % n_, env, rest, K, {"sc_packages": self.lookup(env, "realloc_ret")})
+                    if rhs.get("kind") == "CallExpr" and callee_name(rhs) in CALL_EVENTS:
+                        ev, retp = self.call_event(rhs, env)
+                        v = self.fresh(ln)
+                        return "let %s := %s in\n" % (v, retp) + self.emit(ev, env, rest, K, {ln: v})
+                    if is_pkgptr(lhs):
+                        return self.assign(ln, self.expr(s["inner"][1], env), env, rest, K)
+            if k == "CompoundAssignOperator":
+                lhs = c2g.skip_parens(s["inner"][0])
+                rhs = strip(s["inner"][1])
+                if self.is_slot_member(lhs):
+                    f = lhs["name"]
+                    if f not in PKG_FIELDS:
+                        raise c2g.Unsupported("compound store to package field %s in %s" % (f, self.fname))
+                    t = c2g.int_type(c2g.tystr(s))
+                    a = self.expr(lhs, env)
+                    b = self.expr(s["inner"][1], env)
+                    val = self.arith(s["opcode"][:-1], a, b, t).z()
+                    self.stored = True
+                    return self.emit("[(6, %d, 0, %s, 0, 0, %s)]" % (PKG_FIELDS[f], self.slot_of(lhs, env), val), env, rest, K)
+                if rhs.get("kind") == "CallExpr" and callee_name(rhs) in CALL_EVENTS and s.get("opcode") == "+=" and lhs.get("kind") == "DeclRefExpr":
+                    ev, retp = self.call_event(rhs, env)
+                    ln = lhs["referencedDecl"]["name"]
+                    cur = self.lookup(env, ln)
+                    v = self.fresh(ln)
+                    return "let %s := (s32 (%s + %s)) in\n" % (v, cur, retp) + self.emit(ev, env, rest, K, {ln: v})
+            if k in ("WhileStmt", "ForStmt"):
+                return self.loop(s, rest, env, K)
+            return super().stmts(ss, env, K)
+
+        def loop(self, s, rest, env, K):
+            """c2g.Translator.loop with typed loop variables: `evs` is an event list"""
+            inner = s["inner"]
+            if s["kind"] == "WhileStmt":
+                init, cond, inc, body = None, inner[0], None, inner[1]
+            else:
+                init, _cv, cond, inc, body = inner
+                init = init if init.get("kind") else None
+                cond = cond if cond.get("kind") else None
+                inc = inc if inc.get("kind") else None
+            if init is not None:
+                return self.stmts([init, dict(s, kind="ForStmt", inner=[{}, {}, cond or {}, inc or {}, body])] + rest, env, K)
+            acc, decl = set(), set()
+            self.assigned(body, acc, decl)
+            if inc is not None:
+                self.assigned(inc, acc, decl)
+            lvars = sorted(x for x in acc if x in env)
+            refs = set()
+            self.referenced(body, refs)
+            if cond is not None:
+                self.referenced(cond, refs)
+            if inc is not None:
+                self.referenced(inc, refs)
+            for x in sorted(refs):
+                if x not in env and x not in decl and x in SCALARS:
+                    self.lookup(env, x)
+            fvars = sorted(x for x in refs if x in env and x not in lvars and env[x] != "0")
+            self.loopn = getattr(self, "loopn", 0) + 1
+            lname = "%s_loop%d" % (self.gname, self.loopn)
+            lenv = dict((x, "v_" + x) for x in fvars + lvars)
+            ty = lambda x: ("list (%s)" % EVT) if x == "evs" else "Z"
+            tup = lambda e2: self.tuple_of([e2[x] for x in lvars]) if lvars else "tt"
+            token = "@@NEWP%d@@" % self.loopn
+            before = list(self.params)
+            recur = lambda e2: "%s fuel' %s" % (lname, " ".join([n_ for n_, _ in self.extra] + [token] + [lenv[x] for x in fvars] + [e2[x] for x in lvars]))
+            KL = dict(fin=(lambda e2: self.stmts([inc], e2, dict(fin=recur, ret=None, brk=None, cont=None)) if inc is not None else recur(e2)),
+                      ret=None, brk=lambda e2: "Some %s" % tup(e2))
+            KL["cont"] = KL["fin"]
+            body_t = self.stmts([body], dict(lenv), KL)
+            if cond is not None:
+                body_t = "(if %s then\n%s\nelse Some %s)" % (self.expr(cond, lenv).b(), body_t, tup(lenv))
+            newp = [x for x in self.params if x not in before]
+            body_t = body_t.replace(token, " ".join(newp))
+            args = " ".join(["(%s : %s)" % (n_, t_) for n_, t_ in self.extra] + ["(%s : Z)" % x for x in newp] + ["(%s : %s)" % (lenv[x], ty(x)) for x in fvars + lvars])
+            ltype = " * ".join(ty(x) for x in lvars) if lvars else "unit"
+            self.aux.append((lname, "Fixpoint %s (fuel : nat) %s {struct fuel} : option (%s) :=\n  match fuel with\n  | O => None\n  | S fuel' =>\n%s\n  end.\n"
+                             % (lname, args, ltype, body_t)))
+            news = [self.fresh(x) for x in lvars]
+            env2 = dict(env)
+            for x, v in zip(lvars, news):
+                env2[x] = v
+            pat = "tt" if not lvars else (news[0] if len(news) == 1 else "(%s)" % ", ".join(news))
+            call = "%s fuel %s" % (lname, " ".join([n_ for n_, _ in self.extra] + newp + [env[x] for x in fvars] + [env[x] for x in lvars]))
+            return "match %s with\n| None => None\n| Some %s =>\n%s\nend" % (call, pat, self.stmts(rest, env2, K))
+
+    def scan_funs(T, nodes):
+        """the table functions a statement list may read (they are parameters of every loop function)"""
+        found = set()
+
+        def f(n):
+            if isinstance(n, dict):
+                if is_assign(n) and T.is_slot_member(c2g.skip_parens(n["inner"][0])):
+                    # a store: only the slot expression and the value are read
+                    for c in c2g.skip_parens(n["inner"][0]).get("inner", []):
+                        f(c)
+                    f(n["inner"][1])
+                    return
+                if n.get("kind") == "MemberExpr" and T.is_slot_member(n) and n.get("name") in PKG_FIELDS:
+                    found.add("pk_" + n["name"])
+                if n.get("kind") == "CallExpr":
+                    cn = callee_name(n)
+                    if cn == "sc_package_is_registered":
+                        found.add("is_registered")
+                    if cn == "strcmp":
+                        found.add("pk_name_cmp")
+                    if cn in T.inline:
+                        for pn in T.inline[cn]:
+                            if pn in FUN_ORDER:
+                                found.add(pn)
+                for c in n.get("inner", []):
+                    f(c)
+        for n in nodes:
+            f(n)
+        return [x for x in FUN_ORDER if x in found]
+
+    def translate_reg(stmts, gname, cname, outputs, ret=False, inline=None, decls=None, comment=""):
+        """statement list -> Definition gname (fuel) (table functions) (scalars) := (evs, outputs.., returned value)"""
+        T = RegT(dict((k_, v_[0]) for k_, v_ in (inline or {}).items()))
+        T.inline_decl = dict((k_, v_[1]) for k_, v_ in (inline or {}).items())
+        T.fname, T.gname = cname, gname
+        T.extra = [(x, "Z -> Z") for x in scan_funs(T, stmts)]
+        uses_loops = any(c2g.body_uses_loops(x) for x in stmts)
+        env = {"evs": "(@nil (%s))" % EVT}
+
+        def result(e, e2):
+            parts = [e2["evs"]] + [T.lookup(e2, o) for o in outputs]
+            if ret:
+                if e is None:
+                    raise c2g.Unsupported("%s: falls off the end without a return value" % cname)
+                parts.append(e.z())
+            t = parts[0] if len(parts) == 1 else "(%s)" % ", ".join(parts)
+            return ("Some %s" % t) if uses_loops else t
+        K = dict(fin=lambda e2: result(None, e2), ret=lambda e, e2: result(e, e2),
+                 brk=lambda e2: (_ for _ in ()).throw(c2g.Unsupported("break outside loop")),
+                 cont=lambda e2: (_ for _ in ()).throw(c2g.Unsupported("continue outside loop")))
+        text = T.stmts(list(stmts), env, K)
+        used = [n_ for n_, _ in T.extra if re.search(r"\b%s\b" % n_, text + "".join(a for _, a in T.aux))]
+        # the tie is by POSITION: a function that reads one of the two counters always has both as parameters, so that an edit
+        # which reads the other one (count of packages <-> size of the table) changes the meaning and not just a name
+        if "sc_num_packages" in T.params or "sc_num_packages_alloc" in T.params:
+            for x in ("sc_num_packages", "sc_num_packages_alloc"):
+                if x not in T.params:
+                    T.params.append(x)
+        scal = sorted(T.params, key=SCALARS.index)
+        plist = ("(fuel : nat) " if uses_loops else "") + " ".join(["(%s : Z -> Z)" % n_ for n_, _ in T.extra] + ["(%s : Z)" % n_ for n_ in scal])
+        out = ("(* %s *)\n" % comment.replace("*)", "* )").replace("(*", "( *")) if comment else ""
+        out += "".join(a for _, a in T.aux)
+        out += "Definition %s %s :=\n%s.\n" % (gname, plist, text)
+        return out, dict(name=gname, cname=cname, params=[n_ for n_, _ in T.extra] + scal, outputs=list(outputs), fuel=uses_loops), [n_ for n_, _ in T.extra] + scal
+
+    def gen_pkg(tmp):
+        g = Group("PkgC19")
+        f = os.path.join(REPO, "src", "sc.c")
+        # a configuration without SC_ENABLE_PTHREAD (the log indentation exists only there)
+        np_inc = os.path.join(tmp, "inc_c19_nopthread")
+        os.makedirs(np_inc, exist_ok=True)
+        cfg = open(os.path.join(tmp, "inc", "sc_config.h")).read()
+        cfg2 = re.sub(r"^#define SC_ENABLE_PTHREAD\b.*$", "/* #undef SC_ENABLE_PTHREAD */", cfg, flags=re.M)
+        if cfg2 == cfg:
+            raise c2g.Unsupported("sc_config.h of the pinned configuration does not define SC_ENABLE_PTHREAD")
+        open(os.path.join(np_inc, "sc_config.h"), "w").write(cfg2)
+        cache = {}
+
+        def fn(name, conf=""):
+            if (name, conf) not in cache:
+                inc = incs(tmp)
+                if "np" in conf:
+                    inc = [np_inc] + inc[1:]
+                defs = ("SC_ENABLE_DEBUG",) if "dbg" in conf else ()
+                cache[(name, conf)] = c2g.find_function(c2g.clang_ast(f, name, inc, defs), name)
+            return cache[(name, conf)]
+
+        def body(F):
+            return list([c for c in F["inner"] if c.get("kind") == "CompoundStmt"][0].get("inner", []))
+
+        def whole(name, gname=None, conf="", outputs=(), ret=False, inline=None, comment=""):
+            F = fn(name, conf)
+            t, i, params = translate_reg(body(F), gname or name + ("_" + conf if conf else ""), name, list(outputs), ret=ret, inline=inline, comment=comment)
+            g.add(t, i)
+            return params, F
+
+        # --- readers
+        p_isreg, _ = whole("sc_package_is_registered", ret=True,
+                           comment="returns (events, value): the Invalid-package-id message of negative ids is the event (4, id, 0, sc_package_id, NORMAL, ERROR, -8)")
+        whole("sc_package_is_registered", conf="dbg", ret=True)
+        p_qd, F_qd = whole("sc_query_doabort", ret=True)
+        whole("sc_package_print_summary", comment="(4, first vararg, 0, sc_package_id, GLOBAL, log_priority, text): one heading (-12, number of packages) and one line (-13, slot) per registered slot in increasing order")
+        # --- writers
+        whole("sc_package_set_verbosity")
+        whole("sc_package_set_abort_alloc_mismatch", outputs=("default_abort_mismatch",))
+        for conf in ("", "dbg"):
+            whole("sc_package_register", conf=conf, outputs=("sc_num_packages", "sc_num_packages_alloc", "sc_packages"), ret=True,
+                  comment="returns Some (events, sc_num_packages, sc_num_packages_alloc, sc_packages, new id); log_handler / log_threshold are the arguments")
+        whole("sc_package_unregister_noabort", outputs=("sc_num_packages",), ret=True, comment="returns (events, sc_num_packages, number of errors)")
+        whole("sc_package_unregister", inline={"sc_query_doabort": (p_qd, F_qd)},
+              comment="the call of sc_package_unregister_noabort is the event (8, 1, 0, id, 0, 0, 0), its result the parameter unregister_ret")
+        for conf in ("", "dbg"):
+            whole("sc_finalize_noabort", conf=conf, outputs=("sc_num_packages_alloc", "sc_packages", "sc_identifier", "sc_trace_file", "sc_package_id"), ret=True,
+                  comment="returns Some (events, sc_num_packages_alloc, sc_packages, sc_identifier, sc_trace_file, sc_package_id, number of errors); "
+                          "the loop reads is_registered of the table at entry: sc_package_unregister_noabort (i) stores into slot i only")
+        # --- log indentation: compiled out with SC_ENABLE_PTHREAD (pinned), live without
+        for conf in ("", "np", "npdbg"):
+            whole("sc_log_indent_push_count", conf=conf)
+            whole("sc_log_indent_pop_count", conf=conf)
+        # --- the built-in handler: what it decides to print (statements in front of the first output call)
+        for conf in ("",):
+            F = fn("sc_log_handler", conf)
+            b = body(F)
+            cut = [k_ for k_, s_ in enumerate(b) if s_.get("kind") == "IfStmt" and
+                   any(callee_name(c_) in ("fputc", "fprintf", "fputs") for c_ in _calls(s_))]
+            if not cut:
+                raise c2g.Unsupported("sc_log_handler: no conditional output statement")
+            t, i, _p = translate_reg(b[:cut[0]], "sc_log_handler_decide" + ("_" + conf if conf else ""), "sc_log_handler", ["package", "wp", "wi", "lindent"],
+                                     comment="returns (events, package printed, wp, wi, lindent)")
+            g.add(t, i)
+            ifs = [s_ for s_ in b[cut[0]:] if s_.get("kind") == "IfStmt"]
+            if len(ifs) != 2:
+                raise c2g.Unsupported("sc_log_handler: %d conditional output statements, expected prefix and file:line" % len(ifs))
+            for nm, st in (("sc_log_handler_prefix_cond", ifs[0]), ("sc_log_handler_trace_cond", ifs[1])):
+                if conf:
+                    continue
+                T = RegT()
+                T.fname = T.gname = nm
+                e = T.expr(st["inner"][0], {})
+                scal = sorted(T.params, key=lambda x: x)
+                g.add("Definition %s %s : bool :=\n%s.\n" % (nm, " ".join("(%s : Z)" % x for x in scal), e.b()), dict(name=nm, cname="sc_log_handler", params=scal, fuel=False))
+        for i_ in g.infos:
+            if i_["name"] not in EXPECT_PARAMS or list(i_["params"]) != EXPECT_PARAMS[i_["name"]]:
+                raise c2g.Unsupported("%s reads %s, the theorems are about %s: the function depends on different state than proved about"
+                                      % (i_["name"], list(i_["params"]), EXPECT_PARAMS.get(i_["name"])))
+        return g, [f, os.path.join(REPO, "src", "sc.h")]
+
+    def _calls(n):
+        out = []
+
+        def w(x):
+            if isinstance(x, dict):
+                if x.get("kind") == "CallExpr":
+                    out.append(x)
+                for c in x.get("inner", []):
+                    w(c)
+        w(n)
+        return out
+
+    GROUPS["PkgC19"] = gen_pkg
